@@ -322,7 +322,13 @@ class Runner:
                     else:
                         v = pyobs.dec(r['v']) if r['k'] == 'scalar' else [pyobs.dec(x) for x in r['vs']]
                     if a['k'] == 'row':
-                        setattr(dm[a['i']], o['name'], v)
+                        if a.get('via') == 'iter':
+                            # Row objects collected by iterating over the table and used afterwards (max(dm, key=..),
+                            # list(dm), tuple unpacking): each must still be the row it was yielded for
+                            rows = list(dm)
+                            setattr(rows[a['i']], o['name'], v)
+                        else:
+                            setattr(dm[a['i']], o['name'], v)
                     else:
                         col = dm[o['name']]
                         if a['k'] == 'int':
